@@ -225,8 +225,10 @@ def r07_2_table_agreement(ctx: Ctx) -> RuleResult:
     by_letter: dict[str, list[tuple[str, str]]] = {}
     runs: dict[str, BuildRun] = {}
     for pt, ch, call in rows:
-        args = call.args
-        if len(args) != 7:
+        from ..kit import positional
+
+        args = positional(call, M.func("_SteppedPatternBuilder._handle_padded_field", required=True))
+        if len(args) != 7 or any(a is None for a in args):
             raise AnalysisError(f"{pt.parser.name}[{ch!r}]: _handle_padded_field no longer takes 7 positional arguments")
         max_count, fld, lo, hi = (M.fold(a, pt.parser, pt.parser.mod) for a in args[:4])
         fname = unparse(args[1]).split(".")[-1]
